@@ -29,3 +29,24 @@ package ammo
 //@ props C07 C14
 //@ modifies nothing
 //@ ensures result == a.tag
+
+// The request built from an entry is exactly the decoded method, URL and body; configured headers only fill the gaps.
+//@ func (a *Ammo) BuildRequest
+//@ props C07 C09
+//@ at call http.NewRequest assert [method-url-body-as-decoded] arg(a0) == a.method && arg(a1) == a.url && imp(a.body == nil, arg(a2) == nil) && imp(a.body != nil, arg(a2) == box(result_of(bytes.NewReader, 0)))
+//@ at call bytes.NewReader assert [the-decoded-body-bytes] arg(a0) == a.body
+//@ at call util.EnrichRequestWithHeaders assert [headers-of-the-entry] arg(req) == result_of(http.NewRequest, 0) && arg(headers) == a.header
+//@ ensures [the-request-built] imp(result1 == nil, result0 == result_of(http.NewRequest, 0) && calls(util.EnrichRequestWithHeaders) == 1)
+//@ ensures [bad-entry-is-an-error] imp(result_of(http.NewRequest, 1) != nil, result0 == nil && result1 != nil)
+
+//@ func (a *RawAmmo) BuildRequest
+//@ props C07 C09
+//@ at call raw.DecodeRequest assert [the-decoded-request-bytes] arg(reqString) == a.buff
+//@ at call util.EnrichRequestWithHeaders assert [configured-headers-fill-the-gaps] arg(req) == result_of(raw.DecodeRequest, 0) && arg(headers) == a.commonHeaders
+//@ ensures [the-request-built] imp(result1 == nil, result0 == result_of(raw.DecodeRequest, 0) && calls(util.EnrichRequestWithHeaders) == 1)
+//@ ensures [bad-entry-is-an-error] imp(result_of(raw.DecodeRequest, 1) != nil, result0 == nil && result1 != nil)
+
+//@ func (a *RawAmmo) Reset
+//@ props C07
+//@ ensures len(a.buff) == 0 && a.tag == "" && a.commonHeaders == nil && a.filePosition == 0
+//@ modifies a.buff, a.tag, a.filePosition, a.commonHeaders
